@@ -597,11 +597,14 @@ pub struct Oracle<'a> {
     pub memo: BTreeMap<u32, Val>,
     /// per node: the reads (callee) performed by the reference evaluation
     pub reads: BTreeMap<u32, Vec<u32>>,
+    /// follow reads that the executor may abandon half way (default). Off:
+    /// only what a request certainly reaches is evaluated.
+    pub follow_abandoned: bool,
 }
 
 impl<'a> Oracle<'a> {
     pub fn new(prog: &'a Program, leaves: &'a dyn Fn(u32) -> Val) -> Self {
-        Self { prog, leaves, memo: BTreeMap::new(), reads: BTreeMap::new() }
+        Self { prog, leaves, memo: BTreeMap::new(), reads: BTreeMap::new(), follow_abandoned: true }
     }
 
     pub fn node(&mut self, n: u32) -> Val {
@@ -670,7 +673,9 @@ impl<'a> Oracle<'a> {
             // the value is ignored, but the node may be reached (when the
             // read completes before it is abandoned it is an ordinary read)
             Expr::Abandon(n, s, _) => {
-                let _ = self.read(*n, *s, reads);
+                if self.follow_abandoned {
+                    let _ = self.read(*n, *s, reads);
+                }
                 0
             }
         }
